@@ -55,8 +55,11 @@ Definition spec_entry (lo : list (list Z)) (plus : bool) (j : nat) (x : Z) : Z :
   else if plus then nth (Z.to_nat x) (nth j lo []) 0
   else nth (Z.to_nat (3 - x)) (nth (length lo - 1 - j) lo []) 0.
 
+(* sum over motif positions j of the entry for the character at sequence position i + j
+   (position i + j is position j of the sequence with its first i characters dropped) *)
 Definition spec_score (lo : list (list Z)) (plus : bool) (s : list Z) (i : nat) : Z :=
-  sumz (map (fun j => spec_entry lo plus j (nth (i + j) s (-1))) (seq 0 (length lo))).
+  let t := skipn i s in
+  sumz (map (fun j => spec_entry lo plus j (nth j t (-1))) (seq 0 (length lo))).
 
 (* exact tail probability of integer bin b, from a precomputed tail list *)
 Definition tailp (tl : list Z) (base : Z) (w : nat) (b : Z) : Q := probQ (fast_ge_from tl base b) w.
@@ -65,6 +68,15 @@ Definition tailp (tl : list Z) (base : Z) (w : nat) (b : Z) : Q := probQ (fast_g
 Definition spec_b0 (tl : list Z) (base hi : Z) (w : nat) (thr : Q) : option Z :=
   find (fun b => Qltb (tailp tl base w b) thr)
        (map (fun k => base + Z.of_nat k) (seq 0 (Z.to_nat (hi - base + 2)))).
+
+(* the same search walking the tail list once (equal: Proofs.spec_b0_fast_eq) *)
+Definition spec_b0_fast (tl : list Z) (base hi : Z) (w : nat) (thr : Q) : option Z :=
+  let m := Z.to_nat (hi - base + 2) in
+  match find (fun p => Qltb (probQ (snd p) w) thr)
+             (combine (map (fun k => base + Z.of_nat k) (seq 0 m)) (firstn m (tl ++ repeat 0 m))) with
+  | Some p => Some (fst p)
+  | None => None
+  end.
 
 Inductive wclass := WHit | WMiss | WAmb.
 
@@ -92,7 +104,7 @@ Definition mctx_of (c : call) (m : motif) : mctx :=
   let base := sum_min (im m) in
   let w := length (lo m) in
   MC tl base w
-     (match spec_b0 tl base (sum_max (im m)) w (cthr c) with
+     (match spec_b0_fast tl base (sum_max (im m)) w (cthr c) with
       | None => None
       | Some b0 => Some (inject_Z b0 * cbin c)%Q
       end).
